@@ -6,10 +6,15 @@
       C11_i64_min / gcd      min is the least argument; gcd is Z.gcd folded over the magnitudes (Err only when it
                              does not fit), for every arity >= 1; med is the middle of the sorted vector
       C11_sorting            the insertion sort of the models returns a sorted permutation of its input and
-                             depends only on the multiset of keys *)
+                             depends only on the multiset of keys
+      C11_f64_med_order      eval_f64 med / median does not depend on the order of the arguments (any values, NaN
+                             included; any libm): the total_cmp key is injective
+      C11_f64_med_member     without NaN and for an odd count the median is one of the arguments
+      C11_f64_avg            avg is the left-to-right IEEE sum divided by the count (order matters only through
+                             rounding, as the property allows) *)
 From Coq Require Import List ZArith Bool Permutation Sorting.Sorted.
-From SC Require Import Base.Res Base.RustInt Base.Oracle Lang.Syntax Lang.Parser Eval.Common Eval.EvalI64 Gen.Tables
-  Spec.Surface Proofs.NoPanic Proofs.AggFacts.
+From SC Require Import Base.Res Base.RustInt Base.F64 Base.Oracle Lang.Syntax Lang.Parser Eval.Common Eval.EvalI64 Eval.EvalF64 Gen.Tables
+  Spec.Surface Proofs.NoPanic Proofs.AggFacts Proofs.AggF64.
 Import ListNotations.
 Local Open Scope Z_scope.
 
@@ -66,6 +71,22 @@ Proof.
   intros l l' P. apply (isort_perm (fun z => z)); auto.
 Qed.
 Print Assumptions C11_sorting.
+
+Theorem C11_f64_med_order :
+  forall (L : libm) vs vs', Permutation vs vs' -> agg_f64 L AMed vs = agg_f64 L AMed vs'.
+Proof. exact agg_f64_med_perm. Qed.
+Print Assumptions C11_f64_med_order.
+
+Theorem C11_f64_med_member :
+  forall (L : libm) vs r, existsb fis_nan vs = false -> Nat.even (length vs) = false ->
+    agg_f64 L AMed vs = Ok r -> In r vs.
+Proof. exact agg_f64_med_odd. Qed.
+Print Assumptions C11_f64_med_member.
+
+Theorem C11_f64_avg :
+  forall (L : libm) vs, agg_f64 L AAvg vs = Ok (fdiv (fold_left fadd vs fzero) (f64_of_Z (Z.of_nat (length vs)))).
+Proof. exact agg_f64_avg_def. Qed.
+Print Assumptions C11_f64_avg.
 
 Example C11_examples :
   agg_i64 AMin [3; -1; 2] = Ok (-1) /\ agg_i64 AMax [3; -1; 2] = Ok 3 /\ agg_i64 AAvg [7; -2] = Ok 2 /\
